@@ -58,6 +58,9 @@ chk.assumptions += [
     "cells): handing the packet on at once with zero path is accepted there (counter start_on_undeclared_upper_boundary_...); "
     "C03 checks that such a packet still ends up depositing the right path in the assembled grid",
     "propagate / compute_optical_depth do not move the start onto the declared boundary themselves; they are given the moved start",
+    "exit class on an exact tie: in general a face is accepted when the line passes an edge within 2 delta (rounding decides); only for "
+    "inputs that are bitwise symmetric under the exchange of two/three axes (same anchor, side, cell count, start coordinate, direction "
+    "component, homogeneous contents) the class must name all symmetric axes, because the line crosses their edge/corner exactly",
 ]
 need = {}
 for c in CLASSES:
@@ -67,7 +70,8 @@ for k in ["absorbed", "escaped", "start_inside_on_cellface", "start_inside_on_ce
           "start_boundary_plus_1_cellface", "dir_axis_aligned_exact", "dir_one_zero_component", "dir_with_tiny_component",
           "target_tiny", "target_beyond", "target_exactly-total", "target_huge", "blocks_exact_lattice", "blocks_generic",
           "regime_accumulate_on_nonzero_estimators", "propagate_calls", "compute_optical_depth_calls",
-          "nontrivial_multi_cell_cases"]:
+          "nontrivial_multi_cell_cases", "symmetric_lines_through_a_block_edge", "symmetric_lines_through_a_block_corner",
+          "symmetric_exits_confirmed"]:
     need[k.replace("-", "_")] = stats.get(k)
 need["pinned_cases"] = pin_stats.get("pinned_cases")
 chk.require_nonzero(**need)
